@@ -217,3 +217,25 @@ def add_strfuns(reg):
     reg.externs['wsplit'] = wsplit
     reg.assumptions.append('A-STR: bytes.lower and bytes.split() (whitespace split) are uninterpreted functions; '
                            'lower is idempotent and length preserving')
+
+
+def add_ipaddress(reg):
+    """ipaddress.ip_address(s): ValueError unless s is an address literal (uninterpreted predicate
+    is_ip_literal, with version 4 or 6)."""
+    isip = SpecFun('is_ip_literal', ['str'], 'bool')
+    ver = SpecFun('ip_version', ['str'], 'int')
+    reg.specfuns.update(is_ip_literal=isip, ip_version=ver)
+    reg.klass('IPAddress', py=None, fields={'version': 'int'})
+
+    def ip_address(ex, st, args, kwargs, fr):
+        a = args[0]
+
+        def ok(s):
+            s.assume(z3.Or(ver.decl(a.t) == 4, ver.decl(a.t) == 6))
+            # an address literal never carries brackets
+            s.assume(z3.Not(z3.PrefixOf(z3.StringVal('['), a.t)))
+            return ex.val(s.alloc(HObj('IPAddress', {'version': VInt(ver.decl(a.t))}, None)), s)
+        return ex.branch(isip.decl(a.t), st, ok, lambda s: ex.exc(ValueError, s))
+    reg.externs['ipaddress.ip_address'] = ip_address
+    reg.assumptions.append('ipaddress.ip_address accepts exactly the IPv4/IPv6 literals (uninterpreted predicate '
+                           'is_ip_literal; bracketed spellings are not literals)')
